@@ -19,7 +19,8 @@ sA == <<97>>
 L12 == Lit(VL(<<VI(1), VI(2)>>))
 
 \* the forbidden callable applied to e
-X(kind, e) == IF kind = "fn" THEN Spy("spx", "f1", e) ELSE SpyF("sfx", "f1", e)
+\* (kind "esc": the forbidden name is the built-in escape filter -- a policy may leave it out like any other)
+X(kind, e) == IF kind = "fn" THEN Spy("spx", "f1", e) ELSE IF kind = "esc" THEN Filt("escape", e, <<>>) ELSE SpyF("sfx", "f1", e)
 \* the same program with the forbidden function spelled differently (source level: the pieces "spx" are respelled)
 Respell(ps, sp) == [i \in 1..Len(ps) |-> IF "w" \in DOMAIN ps[i] /\ ps[i].w = "spx" THEN W(sp) ELSE ps[i]]
 
@@ -37,7 +38,7 @@ Frag(pos, kind) ==
       [] pos = "chainupper"  -> <<PrintS(Filt("upper", X(kind, LS(sA)), <<>>))>>
       [] pos = "forseq"      -> <<For1("i", X(kind, L12), <<PrintS(Var("i"))>>)>>
       [] pos = "forbody"     -> <<For1("i", L12, <<PrintS(X(kind, Var("i")))>>)>>
-      [] pos = "apply"       -> <<Apply("sfz", <<>>, <<T(sA)>>)>>     \* the engine's apply tag takes a bare filter name
+      [] pos = "apply"       -> <<Apply(IF kind = "esc" THEN "e" ELSE "sfz", <<>>, <<T(sA)>>)>>     \* the engine's apply tag takes a bare filter name
       [] pos = "filtarg"     -> <<PrintS(Filt("default", Lit(Null), <<X(kind, LI(1))>>))>>
       [] pos = "fnarg"       -> <<PrintS(Spy("sp", "g1", X(kind, LI(1))))>>
       [] pos = "ifcond"      -> <<IfElse(X(kind, LI(1)), <<T(<<84>>)>>, <<T(<<70>>)>>)>>
@@ -94,7 +95,7 @@ RouteKeepsTop(route) == route \in {"direct", "include", "includeonly", "includew
 
 ModCall == {"modcall", "modcall2"}
 Policies == {"forbid", "allow", "empty"}
-AllowF(pol)  == CASE pol = "forbid" -> {"sf", "upper", "default"} [] pol = "allow" -> {"sf", "upper", "default", "sfx", "sfz"} [] OTHER -> {}
+AllowF(pol)  == CASE pol = "forbid" -> {"sf", "upper", "default"} [] pol = "allow" -> {"sf", "upper", "default", "sfx", "sfz", "escape", "e"} [] OTHER -> {}
 AllowFn(pol) == CASE pol = "forbid" -> {"sp", "mm", "mw", "parent"} [] pol = "allow" -> {"sp", "mm", "mw", "parent", "spx"} [] OTHER -> {}
 
 Cases == {[pos |-> pos, kind |-> kind, route |-> route, pol |-> pol, r2 |-> "none"]
@@ -110,6 +111,10 @@ Cases == {[pos |-> pos, kind |-> kind, route |-> route, pol |-> pol, r2 |-> "non
 PreCases == {[pos |-> pos, kind |-> kind, route |-> route, pol |-> pol, r2 |-> "none", pre |-> pre]
                : pos \in {"print", "forseq", "chainupper", "ifcond", "set"}, kind \in {"fn", "filter"}, route \in {"direct", "include", "extendsblock", "localmacro"},
                  pol \in {"forbid", "allow"}, pre \in Pres \ {"none"}}
+\* the built-in escape filter as the forbidden name, on strings, in every filter position and behind every route
+EscCases == {[pos |-> pos, kind |-> "esc", route |-> route, pol |-> pol, r2 |-> "none"]
+               : pos \in {"print", "chainfirst", "chainlast", "chainmiddle", "chainupper", "apply", "filtarg", "set", "incwith", "cond"},
+                 route \in Routes1, pol \in {"forbid", "allow"}}
 \* a layout that another engine parsed and this engine was given with RegisterTemplate (a shared layout): the sandboxed
 \* template extends it
 ForeignCases == {[pos |-> pos, kind |-> kind, route |-> route, pol |-> pol, r2 |-> "none", fp |-> TRUE]
@@ -122,7 +127,7 @@ DenyCases == {[pos |-> pos, kind |-> "fn", route |-> route, pol |-> "forbid", r2
 Universe == {"spx", "sfx", "sfz", "sp", "sf", "mm", "mw", "parent", "upper", "default", "lower", "reverse", "trim"}
 Valid(c) ==
     /\ (PreOf(c) = "macrocall" => c.route \in {"direct", "include"})
-    /\ (c.pos \in OnlyFilter => c.kind = "filter")
+    /\ (c.pos \in OnlyFilter => c.kind \in {"filter", "esc"})
     /\ (c.pos \in ModCall => c.kind = "fn" /\ c.pol = "forbid" /\ c.r2 = "none"
                              /\ (c.pos = "modcall2" => RouteKeepsTop(c.route)))
     /\ (FragNeedsTop(c.pos) => RouteKeepsTop(c.route) /\ (c.r2 = "none" \/ RouteKeepsTop(c.r2)))
@@ -159,7 +164,7 @@ Ref(c) == Render(World(c), "main", EmptyFn)
 Confined(c) ==
     LET r == Ref(c) IN
     /\ (c.pol \in {"forbid", "empty"} => (~r.ok /\ (r.err = "security" \/ c.pos \in ModCall) /\ CountOf(r.calls, "f1") = 0))
-    /\ (c.pol = "allow" => r.ok /\ CountOf(r.calls, "f1") >= 1)
+    /\ (c.pol = "allow" => r.ok /\ (c.kind = "esc" \/ CountOf(r.calls, "f1") >= 1))
     /\ CountOf(r.calls, "o1") = 1 /\ CountOf(r.calls, "o2") = 1
 
 CaseOf(c) ==
@@ -177,6 +182,7 @@ CaseOf(c) ==
         cfg |-> [sandbox |-> TRUE, allowf |-> AllowF(c.pol), allowfn |-> AllowFn(c.pol)]
                 @@ (IF "fp" \in DOMAIN c THEN [foreigntp |-> <<"t2">>] ELSE EmptyFn),
         runs |-> {[label |-> "sandbox", tp |-> Sources(Tp(c), LMin), xcalls |-> [id \in {} |-> 0], denyfalse |-> FALSE, then |-> <<>>],
+                  [label |-> "sandbox/debug", tp |-> Sources(Tp(c), LMin), xcalls |-> [id \in {} |-> 0], denyfalse |-> FALSE, then |-> <<>>, debug |-> TRUE],
                   [label |-> "denyfalse", tp |-> Sources(Tp(c), LMin), xcalls |-> [id \in {} |-> 0], denyfalse |-> TRUE, then |-> <<>>]}
                  \cup (IF c.pol = "empty" \/ c.pos \in ModCall THEN {} ELSE
                        {[label |-> "repolicy", tp |-> Sources(Tp(c), LMin), xcalls |-> [id \in {} |-> 0], denyfalse |-> FALSE, then |-> <<phase(FALSE)>>],
@@ -200,9 +206,28 @@ CaseOfDeny(c) ==
         expect |-> [ok |-> FALSE, out |-> <<>>, err |-> IF c.deny = "exact" THEN ref.err ELSE "any", calls |-> [id \in {} |-> 0],
                     always |-> [id \in {"f1", "o1", "o2"} |-> CountOf(ref.calls, id)]]]
 
-Init == cs \in {c \in Cases \cup PreCases \cup ForeignCases \cup DenyCases : Valid(c) /\ Ref(c).err # "frag"}
+\* a page (not sandboxed) extends a layout and, inside its block, includes a widget sandboxed; the widget calls parent().  The
+\* layout's definition of the block holds the forbidden name.  Whatever parent() means there (the widget is in no block of its
+\* own: the pinned tree reports an error), nothing forbidden runs on the widget's behalf
+WidgetCases == {[widget |-> w, pos |-> pos, kind |-> kind] : w \in {"plain", "with", "loop"}, pos \in {"print", "forseq", "chainupper", "set", "ifcond"}, kind \in {"fn", "filter"}}
+WidgetTp(c) ==
+    LET inc == CASE c.widget = "plain" -> <<Include(LS(NT.t1), Lit(Null), FALSE, FALSE, FALSE, TRUE)>>
+                 [] c.widget = "with" -> <<Include(LS(NT.t1), Hash(<<LS(NT.q)>>, <<LI(1)>>), TRUE, FALSE, FALSE, TRUE)>>
+                 [] OTHER -> <<For1("i", L12, <<Include(LS(NT.t1), Lit(Null), FALSE, FALSE, FALSE, TRUE)>>)>>
+    IN ("main" :> <<Extends(LS(NT.t4)), Block("bb", <<T(<<91>>)>> \o inc \o <<T(<<93>>)>>)>>)
+       @@ ("t1" :> <<T(<<119>>), PrintS(Call("parent", <<>>))>>)
+       @@ ("t4" :> <<T(<<60>>), Block("bb", Frag(c.pos, c.kind)), T(<<62>>)>>)
+CaseOfWidget(c) ==
+    [prop |-> "C06", key |-> ToJson(c), tags |-> {"widget:" \o c.widget, "pos:" \o c.pos, "kind:" \o c.kind, "pol:forbid", "route:parent-from-widget"},
+     entry |-> "main", ctx |-> EmptyFn, cfg |-> [sandbox |-> TRUE, allowf |-> AllowF("forbid"), allowfn |-> AllowFn("forbid")],
+     runs |-> {[label |-> "widget", tp |-> Sources(WidgetTp(c), LMin), xcalls |-> [id \in {} |-> 0]],
+               [label |-> "widget/debug", tp |-> Sources(WidgetTp(c), LMin), xcalls |-> [id \in {} |-> 0], debug |-> TRUE]},
+     expect |-> [ok |-> FALSE, out |-> <<>>, err |-> "any", calls |-> [id \in {} |-> 0], always |-> [id \in {"f1"} |-> 0]]]
+
+Init == cs \in WidgetCases \cup {c \in Cases \cup PreCases \cup ForeignCases \cup DenyCases \cup EscCases : Valid(c) /\ Ref(c).err # "frag"
+                                  /\ Render(MkW(Tp(c), AllowF(IF c.pol = "allow" THEN "forbid" ELSE "allow"), AllowFn(IF c.pol = "allow" THEN "forbid" ELSE "allow"), NoFault), "main", EmptyFn).err # "frag"}
 Next == UNCHANGED cs
 Spec == Init /\ [][Next]_cs
-Emit == PrintT(ToJson(IF "deny" \in DOMAIN cs THEN CaseOfDeny(cs) ELSE CaseOf(cs)))
-ModelOK == Confined(cs)
+Emit == PrintT(ToJson(IF "deny" \in DOMAIN cs THEN CaseOfDeny(cs) ELSE IF "widget" \in DOMAIN cs THEN CaseOfWidget(cs) ELSE CaseOf(cs)))
+ModelOK == "widget" \in DOMAIN cs \/ Confined(cs)
 =============================================================================
